@@ -135,6 +135,25 @@ class StmtMixin:
         if isinstance(tgt, ast.Name):
             self.assign_name(st, tgt.id, v)
             return [Outcome("normal", st)]
+        if isinstance(tgt, ast.Tuple) and strip_opt(v.ty).kind == "list":
+            # unpacking a list: exactly len(targets) items, else ValueError
+            a = Val.a(v.t)
+            n = len(tgt.elts)
+            ok, bad = st.fork(st.l_len(a) == n), st.fork(st.l_len(a) != n, "unpack-length")
+            out = []
+            if self.feasible(bad):
+                r = self.raise_new(bad, "ValueError")
+                out.append(Outcome("raise", r.st, r.exc))
+            if self.feasible(ok):
+                ety = strip_opt(v.ty).args[0] if strip_opt(v.ty).args else ANY
+                cur = [Outcome("normal", ok)]
+                for i, t in enumerate(tgt.elts):
+                    nxt = []
+                    for o in cur:
+                        nxt.extend(self.assign(t, self.typed(o.st, o.st.l_item(a, z3.IntVal(i)), ety), o.st) if o.kind == "normal" else [o])
+                    cur = nxt
+                out.extend(cur)
+            return out
         if isinstance(tgt, ast.Tuple):
             parts = self.unpack(st, v, len(tgt.elts))
             cur = [Outcome("normal", st)]
@@ -182,6 +201,7 @@ class StmtMixin:
             base = r.st
             s1 = base.fork(tr)
             s2 = base.fork(z3.Not(tr))
+            self.narrow_isinstance(s.test, s1, s2)
             o1 = self.exec_block(s.body, s1) if self.feasible(s1) else []
             o2 = (self.exec_block(s.orelse, s2) if s.orelse else [Outcome("normal", s2)]) if self.feasible(s2) else []
             n1 = [o for o in o1 if o.kind == "normal"]
@@ -195,6 +215,20 @@ class StmtMixin:
             else:
                 out.extend(o1 + o2)
         return out
+
+    def narrow_isinstance(self, test, s_true: State, s_false: State):
+        """`isinstance(<local name>, dict)` / its negation as an if-test: the branch where it holds sees the name as a dict"""
+        neg = False
+        while isinstance(test, ast.UnaryOp) and isinstance(test.op, ast.Not):
+            test, neg = test.operand, not neg
+        if not (isinstance(test, ast.Call) and isinstance(test.func, ast.Name) and test.func.id == "isinstance" and len(test.args) == 2
+                and isinstance(test.args[0], ast.Name) and isinstance(test.args[1], ast.Name) and test.args[1].id == "dict"):
+            return
+        tgt = s_false if neg else s_true
+        n = test.args[0].id
+        if n in tgt.env and tgt.env[n].ty.kind == "any":
+            tgt.env = dict(tgt.env)
+            tgt.env[n] = SV(tgt.env[n].t, DICT())
 
     def merge_states(self, base: State, a: State, b: State):
         """join two normal continuations of a branch into one state (selector boolean); None if not mergeable"""
